@@ -16,7 +16,8 @@ JUNK = [{"RUST_BACKTRACE": "1"}, {"NO_COLOR": "1"}, {"CLICOLOR_FORCE": "1", "TER
         {"RANDOM_SEED": "7", "RUST_MIN_STACK": "8388608"}]
 TS_TEMPLATES = ["{{ format_timestamp(value=bumped_timestamp) }}", "{{ format_timestamp(value=bumped_timestamp, format='%Y%m%d.%H%M') }}", "{{ format_timestamp(value=bumped_timestamp, format='%c|%x|%X|%A|%B') }}",
                 "{{ format_timestamp(value=last_timestamp, format='compact_datetime') }}", "{{ format_timestamp(value=bumped_timestamp, format='%H:%M %p %Z %z') }}",
-                "{{ hash(value=bumped_branch) }}.{{ hash_int(value=bumped_branch, length=9) }}", "{{ semver }} {{ pep440 }}", "{{ format_timestamp(value=bumped_timestamp, format='%s %j %U %W %G-%V-%u') }}"]
+                "{{ hash(value=bumped_branch) }}.{{ hash_int(value=bumped_branch, length=9) }}", "{{ semver }} {{ pep440 }}", "{{ format_timestamp(value=bumped_timestamp, format='%s %j %U %W %G-%V-%u') }}",
+                "{{ format_timestamp(value=last_timestamp, format='%Y%m%d%H%M%S') }}", "{{ format_timestamp(value=last_timestamp, format='%s') }}|{{ format_timestamp(value=bumped_timestamp, format='%s') }}"]
 TS_SCHEMAS = [{"core": [("t", "YYYY"), ("t", "MM"), ("t", "DD")], "extra": [], "build": [("t", "HH"), ("t", "mm"), ("t", "SS"), ("t", "WW")]},
               {"core": [("t", "YY"), ("t", "0M"), ("t", "0D")], "extra": [("v", "PreRelease")], "build": [("t", "0H"), ("t", "0m"), ("t", "0S"), ("t", "0W"), ("t", "compact_datetime")]},
               {"core": [("v", "Major"), ("t", "compact_date")], "extra": [], "build": [("v", "BumpedBranch")]}]
@@ -119,8 +120,10 @@ def run_check(tier, seed):
                     run.add_violation("oracle", {"stream": "env_matrix_stdin_none", "what": "success depends on the environment", "described": {"argv": base_cmds[i][0]}, "environment": e, "cwd": cwd,
                                                  "baseline": [brc, berr.decode("utf-8", "replace")[-200:]], "variant": [rc, err.decode("utf-8", "replace")[-200:]]}, True)
                 continue
+            # a state that does not read the clock (model probe above; theorem c14_version_clock_only_when_dirty) gets no clock tolerance:
+            # there, two runs that print different text are a violation even when the difference comes and goes with time
             if ((rc == 0) != (brc == 0) or (rc == 0 and mask_now(out.decode("utf-8", "replace"), now) != mask_now(bout.decode("utf-8", "replace"), now))) and \
-                    really_differs(base_cmds[i], base_cmds[i], env_a={"TZ": "UTC", "LANG": "C"}, env_b=e, cwd_b=cwd)[0]:
+                    (not c["clock"] or really_differs(base_cmds[i], base_cmds[i], env_a={"TZ": "UTC", "LANG": "C"}, env_b=e, cwd_b=cwd)[0]):
                 run.add_violation("oracle", {"stream": "env_matrix_stdin_none", "what": "output depends on the environment", "described": {"argv": base_cmds[i][0], "stdin": (c["stdin_text"] or b"").decode("utf-8", "replace")[:1500]},
                                              "environment": e, "cwd": cwd, "baseline_env": {"TZ": "UTC", "LANG": "C", "cwd": "/tmp"},
                                              "baseline": [brc, bout.decode("utf-8", "replace")[:400]], "variant": [rc, out.decode("utf-8", "replace")[:400], err.decode("utf-8", "replace")[-200:]]}, True)
